@@ -169,3 +169,21 @@ def t7(ctx):
             ok = True
     yield Ob(key_of("C18-T7", b.path, "exclusive"), ok, "Memory::truncate is reached only when refs() == 1: %s" % ("guard found" if ok else "NO guard on the reference count - clones and owned handles keep the old base pointer"),
              ctx.loc(mt[0]), {"facts": sorted(show(f) for f in fs if f[0] == "cmp")[:6]})
+
+
+@rule("C18-T8", "C18", 1, "capacity() = max(n, allocated()) needs n to fit the arena's 32-bit sizes: every narrowing of the requested size to u32 on the truncate path is "
+      "dominated by a guard n <= u32::MAX (a larger request must be refused, not truncated to n mod 2^32)")
+def t8(ctx):
+    b = arena_truncate(ctx)
+    ev, res = ctx.eval(b)
+    SZ = ("param", 1, "size")
+    casts = [c for c in res.log if c["kind"] == "cast" and c.get("ty") == "u32" and mentions(c["value"], SZ)]
+    bad = 0
+    for c in casts:
+        fs = set(canon(f) for f in ctx.facts_of(ev, c))
+        # the value is max(n, allocated) in some spelling: it fits when n does (allocated() is a u32 cursor)
+        ok = Order(fs).le(SZ, const(2**32 - 1))
+        if not ok:
+            bad += 1
+            yield Ob(key_of("C18-T8", c["body"].path, "size-narrowed-unguarded", bad), False, "`%s as u32` without a guard n <= u32::MAX: truncate(2^32 + 64) sets the capacity to 64" % short(c["value"], 60), ctx.loc(c))
+    yield Ob(key_of("C18-T8", b.path, "narrowing-casts"), len(casts) >= 1, "%d narrowing cast(s) of the requested size on the truncate path, %d unguarded" % (len(casts), bad), b.loc(), trivial=bad == 0)
